@@ -2,9 +2,13 @@ package c04
 
 import (
 	"testing"
+	"time"
 
+	"github.com/pion/interceptor"
 	"github.com/pion/interceptor/internal/rtpbuffer"
+	"github.com/pion/interceptor/pkg/nack"
 	"github.com/pion/interceptor/verifharness/kit"
+	"github.com/pion/rtcp"
 	"github.com/pion/rtp"
 )
 
@@ -40,6 +44,37 @@ func TestRegressRTXFullSizePayload(t *testing.T) {
 		if len(p.Payload()) != n+2 {
 			kit.WriteReplay("TestRegressRTXFullSizePayload", []byte(`{"rtx":true,"payload_len":1460}`))
 			t.Fatalf("RTX form of a %d-byte payload has %d bytes, want %d", n, len(p.Payload()), n+2)
+		}
+	}
+}
+
+// A next writer that adds a header extension to the header it is handed (what the transport-cc header-extension interceptor does) must not
+// change what the responder has stored: the second retransmission of a packet is handed over as the packet was sent, like the first.
+func TestRegressRetransmissionHeaderIsACopy(t *testing.T) {
+	f, _ := nack.NewResponderInterceptor()
+	ic, _ := f.NewInterceptor("")
+	defer kit.BoundedClose(ic.Close)
+	src := &kit.ByteSource{}
+	r := ic.BindRTCPReader(src)
+	sink := &kit.RTPSink{StampExtension: 9}
+	w := ic.BindLocalStream(&interceptor.StreamInfo{SSRC: 1, RTCPFeedback: []interceptor.RTCPFeedback{{Type: "nack"}}}, sink)
+	if _, err := w.Write(&rtp.Header{Version: 2, SSRC: 1, SequenceNumber: 10}, []byte{1, 2, 3}, nil); err != nil {
+		t.Fatal(err)
+	}
+	for k := 1; k <= 2; k++ {
+		raw, _ := rtcp.Marshal([]rtcp.Packet{&rtcp.TransportLayerNack{SenderSSRC: 2, MediaSSRC: 1, Nacks: []rtcp.NackPair{{PacketID: 10}}}})
+		src.Push(raw)
+		if _, _, err := r.Read(make([]byte, 1500), nil); err != nil {
+			t.Fatal(err)
+		}
+		if !kit.Eventually(5*time.Second, func() bool { return sink.Len() >= 1+k }) {
+			t.Fatalf("retransmission %d was not written", k)
+		}
+	}
+	for k, c := range sink.Calls() {
+		if c.Header.Extension || len(c.Header.Extensions) != 0 {
+			kit.WriteReplay("TestRegressRetransmissionHeaderIsACopy", []byte(`{"send":10,"next_writer":"sets header extension 9 on every header it is handed","nacks":[10,10]}`))
+			t.Fatalf("call %d of the next writer (1, 2 = retransmissions of number 10): header carries extensions %v that the packet sent did not have", k, c.Header.Extensions)
 		}
 	}
 }
